@@ -657,6 +657,11 @@ class C07(Base):
         case = {"filesets": {"base": {"refs": [W.strip(r) for r in refs], "queries": [W.strip(q) for q in queries],
                                       "r_layout": W.layout(rng, len(refs)), "q_layout": W.layout(rng, len(queries))}},
                 "config": cfg, "truth": truths, "meta": {"ref_family": fam}}
+        if rng.random() < 0.4:
+            # ordinary (noisy / chimeric / indel) worlds too: "never aborts" is about every well-formed input, and the
+            # parent-side join only runs on alignable queries
+            case = gen_general(rng, mix=[("chimeric", 4), ("indel", 4), ("noisy", 3), ("degenerate", 2), ("random", 1)])
+            refs = case["filesets"]["base"]["refs"]
         ex = gen_exec(rng, readback=True)
         # the -o path is user input too: no extension, a dot only in a directory name, a sub-directory, a ./ prefix
         ex["out_name"] = rng.choice(["out.xmap"] * 5 + ["out", "res.v2/out", "sub/out.xmap", "./out.xmap", "out.v1.xmap"])
